@@ -14,6 +14,12 @@ CHECKS = {
     "C01": dict(engine="E1+E5", cat="model_checking",
                 technique="explicit-state BFS over documents (rewrite catalogue at every position, depth d) x variable assignments x data trees, each state executed on the real engine and compared with a reference executor",
                 text="Bounded-exhaustive: every valid document within d rewrites (12-kind catalogue applied at every position) of 14 seed documents over schema K, every operation name, every Boolean variable assignment, 2-4 data trees, all 16 type-resolver presence configurations, default-resolver and envelope cases. Each execution of the real engine is compared with an independent June-2018 reference executor: ordered data and the multiset of resolver calls (path, parent identity, coerced arguments)."),
+    "C02": dict(engine="E2+E5", cat="fault_enumeration",
+                technique="exhaustive fault enumeration: every reachable field instance x failure kind (singles, pairs, triples) and every nullability/list layout (216 chain schemas), each run on the real engine and compared with the reference executor's null propagation",
+                text="Every single (fault point, failure kind) on every document within one rewrite of 14 seeds, every pair on the seeds (thorough: pairs at d=1, triples on seeds), and singles+pairs on all 6^3 chain schemas root->a->b->c. Failure kinds: raise, raise library error with user message/extensions, exception returned as value, null, unserialisable leaf, non-list for list, unknown/foreign/non-object runtime type. Oracle: data equals the reference (exactly the nearest nullable position nulled), every nulled position explained by an error at or below it, no error without an injected reachable failure, list indices in paths, locations inside the field's text span, user message and extensions preserved."),
+    "C03": dict(engine="E1", cat="model_checking",
+                technique="exhaustive enumeration of (wrapper shape x leaf kind) fields x adversarial resolver-value universe (values, singletons, pairs); structural conformance invariant checked on every execution of the real engine",
+                text="140 fields (14 wrapper shapes, thorough 18, x 10 leaf kinds incl. enum, custom scalar, object, interface, union) x 80-value adversarial universe, every singleton list and every pair from a 12-value core for list shapes. Invariant derived from schema model + selection: never raises, exactly the selected keys, lists where declared, no null at non-null, Int a 32-bit int, Float finite, String/ID str, Boolean bool, enum among declared values, abstract completed as a possible type, JSON-serialisable, every manufactured null explained by an error and no error without a null."),
     "C18": dict(engine="E1", cat="model_checking",
                 technique="exhaustive enumeration of all short strings over a 14-character alphabet and of all single-token mutations of seed documents x operation names x variables objects x error coercers; envelope invariant checked on every execution",
                 text="Every string of length <= 4 (thorough 5) over {}a ():$\"1.@#\\n, every single-token deletion/duplication/replacement of 6 seed documents, byte spellings (BOM, NUL, invalid UTF-8), nesting depth 50/500/5000, x 4 error coercers x operation names x 9 variables objects. Invariant: never raises, dict with data, errors absent or non-empty with well-formed entries and in-text locations, syntax errors / failed operation selection run nothing, custom coercer awaited exactly once per error and its value used."),
